@@ -8,6 +8,7 @@ with the same key function ModuleLoader uses to find it; loading a module instal
 environment into the module namespace before any template function can run and builds the
 template from the same namespace keys the generator emits (name, blocks, root, debug_info).
 Also: the fake package name is derived from id(self).  
+Also: get_template_key hashes the name as given; list_templates' extension filter splits at the last dot.  
 Not decided: output equality for all template sets.
 """
 
